@@ -26,9 +26,8 @@ impl IPFixParser {
 impl NetflowParser {
 //@ fn src/lib.rs - /impl NetflowParser/ parse_packet_by_version
 //@   contract: stubs/lib_ppbv.rs
-//@   closure 0: p | -> (o: (&'a [u8], u16)) ensures o.0 == p.0, o.1 == p.1.version
-//@   closure 1: - | -> (o: NetflowParseError) ensures o is Incomplete
-//@   before "let (packet, version)": broadcast use lemma_cloned_u8; broadcast use lemma_suffix_after2;
+//@   prerules: R30
+//@   bodystart: broadcast use lemma_cloned_u8; broadcast use lemma_suffix_after2;
 //@ end
 }
 
